@@ -249,7 +249,11 @@ def MState.onRequest (m : MState) (c : Nat) (r : Req) (ds : List Delivery) (outc
   | some (s, pid), .entityAdd rid ots persist flag pose =>
     match own.findSome? fun o => match o with | .entityAddResp r' eid => if r' == rid then some eid else none | _ => none with
     | some eid =>
-      let m := if s.eidsEver.contains eid then m.bad "C10" "entity-id-reissued" s!"session {s.uuid} entity {eid}" else m
+      -- C11 too: a pose update still queued for the deleted entity would be applied to its namesake
+      let m := if s.eidsEver.contains eid then
+          (m.bad "C10" "entity-id-reissued" s!"session {s.uuid} entity {eid}").bad "C11" "entity-id-reissued"
+            s!"session {s.uuid}: entity id {eid} is issued again after the entity that carried it was deleted - a pose update still queued for the old entity now moves the new one"
+        else m
       let e : Entity := ⟨eid, pid, persist, flag, pose.getD 0⟩
       let s' := { s with ents := s.ents ++ [e], eidsEver := s.eidsEver ++ [eid] }
       (m.put s').checkOthers c ds (s.relay pid (.entityAddBcast ots e.view)) ["C02"] "entity-add-relay"
